@@ -203,3 +203,18 @@ META["C03"] = {
         "the checkpoint file is written below /verif/build/out/tmp",
     ],
 }
+
+META["C19"] = {
+    "level": "model_checking",
+    "parts": 3,
+    "tiers": {
+        "quick": {"shards": 3, "deadline_s": 300,
+                  "bounds": "iteration counts 1..4 (calls [3],[2,4],[3,1,4],[2,3,2,4]); VEGAS d=2 with default grids of 2..5 bins and a user grid, alpha in {0,0.5,1.5}; MULTI-CHANNEL default / unnormalised user weights / user weights with a zero, beta in {1/4,1}, min in {0,0.05}; execution: uninterrupted, resumed from text at every split point, MPI shim with P in {1,2,3}; 3 types"},
+        "thorough": {"shards": 3, "deadline_s": 600, "bounds": "same as quick (the enumeration is complete at this bound)"},
+    },
+    "rule": "every configuration x execution mode is run on the real integrators with a scripted engine and a logging integrand; states = results whose recorded state was checked against the points actually seen, transitions = refinement steps checked against the library's refine function applied to the recorded data; distinct_nontrivial = distinct cases with at least two iterations",
+    "binding": "the oracle functions are the library's own vegas_refine_pdf / multi_channel_refine_weights / vegas_icdf / discrete_distribution (their own correctness is C07/C08/C09's subject) applied to the arguments the property prescribes; the MPI runs use the re-execution environment of harness/mpienv.hpp",
+    "assumptions": [
+        "bitwise comparison: both sides are the same library function on arguments that must be equal",
+    ],
+}
